@@ -1,6 +1,7 @@
 import RV.C14.Model
 import RV.C14.Canon
 import RV.C14.Search
+import RV.C14.Traces
 import RV.Base.Proto
 /-
   C14 driver.  Protocol (one line in, one line out):
@@ -25,6 +26,10 @@ import RV.Base.Proto
                                          `to_canonical_graph`: initial_color_count - adjacent_nodes, individuations == 0)
     canonrefine c c c … | c c c …     -> true | false | n/a   when both refinements are discrete: are the canonical triple
                                          sets `canonRefine g`, `canonRefine h` (labels = colour hashes) equal; else n/a
+    canontraces c c c … | c c c …     -> true | false   are the canonical triple sets `canonTraces g`, `canonTraces h` equal
+                                         (model of `canonical_triples` INCLUDING the `_traces` search, RV/C14/Traces.lean)
+    tracesstat c c c …                -> `individuations=K discrete=B`: number of `_traces` calls of the model and whether
+                                         the chosen leaf is discrete (diagnostic: compared with `stats["individuations"]`)
     diff                              -> true true true    (theorem `diff_clauses`: the three clauses hold
                                                             for a sound `canon`; constant prediction)
   anything else -> bad-op
@@ -168,6 +173,22 @@ def step (s : Unit) : List String → Unit × String
         else (s, "n/a")
       | _, _ => (s, "bad-op")
     | _ => (s, "bad-op")
+  | "canontraces" :: rest =>
+    match splitBar rest with
+    | [a, b] =>
+      match triples? a, triples? b with
+      | some g, some h =>
+        let cg := canonTraces sumHash termHash g
+        let ch := canonTraces sumHash termHash h
+        (s, showB (cg.all (fun t => decide (t ∈ ch)) && ch.all (fun t => decide (t ∈ cg))))
+      | _, _ => (s, "bad-op")
+    | _ => (s, "bad-op")
+  | "tracesstat" :: rest =>
+    match triples? rest with
+    | some g =>
+      let r := finalColoring sumHash termHash g
+      (s, s!"individuations={r.2} discrete={showB (allDiscrete r.1)}")
+    | none => (s, "bad-op")
   | ["diff"] => (s, "true true true")
   | _ => (s, "bad-op")
 
